@@ -604,7 +604,8 @@ inline void ThreadPool::forceEnqueue(F&& f, moodycamel::ProducerToken* token) {
 template <typename F>
 DISPENSO_REQUIRES(OnceCallableFunc<F>)
 inline void ThreadPool::schedule(F&& f) {
-  if (shouldRunInline()) {
+  if (shouldRunInline() && detail::PerPoolPerThreadInfo::canInlineSchedule()) {
+    detail::InlineDepthGuard depthGuard;
     f();
   } else {
     schedule(std::forward<F>(f), ForceQueuingTag());
@@ -621,7 +622,8 @@ inline void ThreadPool::schedule(F&& f, ForceQueuingTag) {
 
 template <typename F>
 inline void ThreadPool::schedule(moodycamel::ProducerToken& token, F&& f) {
-  if (shouldRunInline()) {
+  if (shouldRunInline() && detail::PerPoolPerThreadInfo::canInlineSchedule()) {
+    detail::InlineDepthGuard depthGuard;
     f();
   } else {
     schedule(token, std::forward<F>(f), ForceQueuingTag());
@@ -636,7 +638,8 @@ inline void ThreadPool::schedule(moodycamel::ProducerToken& token, F&& f, ForceQ
 template <typename F>
 DISPENSO_REQUIRES(OnceCallableFunc<F>)
 inline void ThreadPool::schedulePlaced(F&& f) {
-  if (shouldRunInline()) {
+  if (shouldRunInline() && detail::PerPoolPerThreadInfo::canInlineSchedule()) {
+    detail::InlineDepthGuard depthGuard;
     f();
   } else {
     schedulePlaced(std::forward<F>(f), ForceQueuingTag());
@@ -653,7 +656,8 @@ inline void ThreadPool::schedulePlaced(F&& f, ForceQueuingTag) {
 
 template <typename F>
 inline void ThreadPool::schedulePlaced(moodycamel::ProducerToken& token, F&& f) {
-  if (shouldRunInline()) {
+  if (shouldRunInline() && detail::PerPoolPerThreadInfo::canInlineSchedule()) {
+    detail::InlineDepthGuard depthGuard;
     f();
   } else {
     schedulePlaced(token, std::forward<F>(f), ForceQueuingTag());
